@@ -1,6 +1,7 @@
 //! Correspondence harness: generates cases, runs the real implementation in-process and writes
 //! one line per case: `op<TAB>args…<TAB>=><TAB>answer`.
 mod common;
+mod c02;
 mod c09;
 mod c19;
 
@@ -38,6 +39,7 @@ fn main() {
     ctx.corpus_cases = ctx.lines.len();
     if args[2] != "replay" {
         match prop {
+            "C02" | "C03" => c02::generate(&mut ctx),
             "C09" => c09::generate(&mut ctx),
             "C19" => c19::generate(&mut ctx),
             _ => {
@@ -59,5 +61,5 @@ fn dispatch_replay(ctx: &mut Ctx, f: &[&str]) -> bool {
     if f.is_empty() {
         return false;
     }
-    c19::replay(ctx, f) || c09::replay(ctx, f)
+    c19::replay(ctx, f) || c09::replay(ctx, f) || c02::replay(ctx, f)
 }
